@@ -32,7 +32,7 @@ Put(L, a, r) == [x \in DOMAIN L \cup {a} |-> IF x = a THEN r ELSE L[x]]
 Move(L, a, b, amt) == LET L1 == Put(L, a, [Get(L, a) EXCEPT !.bal = Monus(@, amt)])
                       IN Put(L1, b, [Get(L1, b) EXCEPT !.bal = Plus(@, amt)])
 
-NoShadow == [ran |-> FALSE, ok |-> FALSE, writes |-> {}, keep |-> {}, moved |-> Zero, req |-> <<>>, base |-> <<>>, dest |-> ""]
+NoShadow == [ran |-> FALSE, ok |-> FALSE, writes |-> {}, keep |-> {}, moved |-> Zero, req |-> <<>>, base |-> <<>>, dest |-> "", deployed |-> {}]
 
 (* tx  = [kind: "deploy"|"call"|"terminate", wasm: BOOLEAN, from, to: names (to = contract address), *)
 (*        amount, maxFee, tips, sizeFee, fpg: amounts]                                            *)
@@ -55,7 +55,8 @@ RefundOp(L, t) == IF Escrowed(t) THEN Move(L, t.to, t.from, t.amount) ELSE L
 Written(S, w) == {p \in S : ~\E q \in w : q[1] = p[1]} \cup {q \in w : q[2] # ""}
 
 CommitOp(L, t, e) ==
-    LET names == DOMAIN L \cup DOMAIN e.req \cup e.deployed \cup {t.to} IN
+    LET created == e.deployed \cup e.sh.deployed      \* what the node says it stored and what the code asked to be deployed
+        names == DOMAIN L \cup DOMAIN e.req \cup created \cup {t.to} IN
     [a \in names |->
         LET o == Get(L, a)
             dropped == t.kind = "terminate" /\ a = t.to /\ o.cstake # Zero
@@ -64,7 +65,7 @@ CommitOp(L, t, e) ==
             s1 == IF e.sh.ran THEN Written(o.store, {<<w[2], w[3]>> : w \in {x \in e.sh.writes : x[1] = a}}) ELSE o.store
         IN [o EXCEPT
               !.bal = b2,
-              !.code = IF dropped THEN FALSE ELSE IF a \in e.deployed \/ (t.kind = "deploy" /\ a = t.to) THEN TRUE ELSE @,
+              !.code = IF dropped THEN FALSE ELSE IF a \in created \/ (t.kind = "deploy" /\ a = t.to) THEN TRUE ELSE @,
               !.cstake = IF dropped THEN Zero
                          ELSE LET base == IF a = t.to /\ StakeDeploy(t) THEN t.amount ELSE @
                               IN IF a = t.to /\ e.sh.ran THEN Plus(base, e.sh.moved) ELSE base,
@@ -235,9 +236,10 @@ InitLedgers ==
         ELSE IF a = Proposer THEN [ZeroAcct EXCEPT !.bal = N(5), !.stake = N(3)]
         ELSE IF a = Target THEN [ZeroAcct EXCEPT !.bal = N(tb), !.code = tc, !.cstake = IF tc /\ ts THEN N(2) ELSE Zero,
                                                 !.store = IF tc THEN {<<"k", "1">>, <<"o", "1">>} ELSE {}]
-        ELSE IF a = Other THEN [ZeroAcct EXCEPT !.code = oc, !.bal = IF oc THEN N(1) ELSE Zero]
+        \* (an address without code may hold coins already when a contract is deployed at it: Target, Other)
+        ELSE IF a = Other THEN [ZeroAcct EXCEPT !.code = (oc = 2), !.bal = IF oc >= 1 THEN N(1) ELSE Zero]
         ELSE [ZeroAcct EXCEPT !.stake = N(1)]]
-     : tb \in {0, 2}, tc \in BOOLEAN, ts \in BOOLEAN, oc \in BOOLEAN}
+     : tb \in {0, 2}, tc \in BOOLEAN, ts \in BOOLEAN, oc \in {0, 1, 2}}
 
 Init == /\ led \in InitLedgers /\ pre0 = led /\ pc = "idle"
         /\ tx = [kind |-> "none"] /\ rc = [success |-> FALSE, gasUsed |-> 0, gasCost |-> Zero, oog |-> FALSE]
@@ -321,7 +323,9 @@ RunSub(k, amt, deploy) ==
     /\ LET caller == SetReq(frames[D], Ctx, Monus(CurBal(Ctx), N(amt)))
            callee == [ctx |-> k, par |-> Ctx, pay |-> N(amt), req |-> <<>>, wr |-> <<>>,
                       dep |-> IF deploy THEN {k} ELSE {}, burnt |-> Zero, moved |-> Zero]
-       IN frames' = Append([frames EXCEPT ![D] = caller], SetReq(callee, k, Plus(CurBal(k), N(amt))))
+           \* WasmEnv.CreateSubEnv: the callee's buffer starts from what the address holds already - also when it is being created
+           start == IF Bug = "subdeploy_forgets_balance" /\ deploy THEN N(amt) ELSE Plus(CurBal(k), N(amt))
+       IN frames' = Append([frames EXCEPT ![D] = caller], SetReq(callee, k, start))
     /\ Spend(IF deploy THEN "subdeploy" ELSE "subcall")
 
 Merge(par, ch) == [par EXCEPT !.req = [x \in DOMAIN par.req \cup DOMAIN ch.req |-> IF x \in DOMAIN ch.req THEN ch.req[x] ELSE par.req[x]],
@@ -351,7 +355,7 @@ Finish(ok, dest) ==
            f == IF term THEN SetReq(f0, dest, Plus(BalAt(1, dest), Half(st))) ELSE f0
        IN /\ (~term => dest = Rcpt)
           /\ eff' = [req |-> f.req, burnt |-> f.burnt, term |-> IF term THEN Sub(st, Half(st)) ELSE Zero, deployed |-> f.dep,
-                     sh |-> [ran |-> TRUE, ok |-> ok, moved |-> f.moved, keep |-> {}, dest |-> dest,
+                     sh |-> [ran |-> TRUE, ok |-> ok, moved |-> f.moved, keep |-> {}, dest |-> dest, deployed |-> f.dep,
                              req |-> IF tx.wasm THEN <<>> ELSE f0.req,
                              base |-> IF tx.wasm THEN <<>> ELSE [a \in DOMAIN f0.req |-> Get(led, a).bal],
                              writes |-> {<<x[1], x[2], f.wr[x]>> : x \in DOMAIN f.wr}]]
